@@ -34,7 +34,10 @@ where
       let subscription = Arc::clone(&self.subscription);
       self.subject.set_on_unsubscribe(move |count| {
         if count == 0 {
-          if let Some(sbsc) = &*subscription.read().unwrap() {
+          // take the connection out, so that the next first subscriber
+          // connects again, and end it without holding the lock
+          let sbsc = subscription.write().unwrap().take();
+          if let Some(sbsc) = sbsc {
             sbsc.unsubscribe();
           }
         }
